@@ -107,18 +107,22 @@ Section Server.
     if ch_idcalc c then ch_id c
     else match chunk_data c with Some b => H b | None => zero_id end.
 
-  (* NewChunkFromStorage; None = ChunkInvalid *)
+  (* NewChunkFromStorage; None = ChunkInvalid.  With verification on, an object whose plain
+     data cannot be produced is refused for every id, the all-zero one included
+     ("fix: chunk constructors reject objects whose data can't be produced"); otherwise the
+     digest of the data (cached in the chunk by Data()) must equal the id. *)
   Definition new_chunk_from_storage (i : id) (b : bytes) (cs : converters) (skip_verify : bool) : option chunk :=
     let c := {| ch_data := []; ch_storage := b; ch_conv := cs; ch_id := i; ch_idcalc := false |} in
     if skip_verify then
       Some {| ch_data := []; ch_storage := b; ch_conv := cs; ch_id := i; ch_idcalc := true |}
     else
-      let sum := chunk_id c in
-      if N.eqb sum i then
-        Some {| ch_data := match chunk_data c with Some d => d | None => [] end;
-                ch_storage := b; ch_conv := cs; ch_id := i;
-                ch_idcalc := match chunk_data c with Some _ => true | None => false end |}
-      else None.
+      match chunk_data c with
+      | None => None
+      | Some d =>
+          if N.eqb (H d) i then
+            Some {| ch_data := d; ch_storage := b; ch_conv := cs; ch_id := i; ch_idcalc := true |}
+          else None
+      end.
 
   (* ---------- the upstream store as the handler sees it ---------- *)
   Inductive get_result := GChunk (c : chunk) | GMissing | GFail.
